@@ -72,20 +72,47 @@ def handle (op : String) (args : List String) (impl : String) : String :=
       match mkSource k1 t1 o1, mkSource k2 t2 o2 with
       | some a, some b =>
         match impl.splitOn " & " with
-        | [i1, i2] =>
-          let m := modelObs a i1 ++ " & " ++ modelObs b i2
+        | [i1, i2, ord] =>
+          -- the order of the two `Timestamp` values under the type's own `Ord`
+          -- (`#[derive(Ord)]` on the `u32` newtype: the order of the numbers)
+          let mOrd := match convert a, convert b with
+            | .ok x, .ok y => if x < y then "lt" else if x == y then "eq" else "gt"
+            | _, _ => "-"
+          let m := modelObs a i1 ++ " & " ++ modelObs b i2 ++ " & " ++ mOrd
           let m := if (modelObs a i1 == "*" || modelObs b i2 == "*") then "*" else m
           let rel := if t1.secs == t2.secs && t1.nanos == t2.nanos then "same"
             else if t1.secs == t2.secs then "same-second" else "apart"
           let both := (okValue i1).isSome && (okValue i2).isSome
+          let far := both && (t1.secs - t2.secs ≥ 2147483648 || t2.secs - t1.secs ≥ 2147483648)
           let label := if i1 == "unrepresentable" || i2 == "unrepresentable" then "unrepresentable"
-            else "pair:" ++ k1 ++ "-" ++ k2 ++ ":" ++ rel ++ (if both then ":both-ok" else ":vacuous")
-          answer m (judgePair t1.secs t1.nanos t2.secs t2.nanos i1 i2) label
+            else "pair:" ++ k1 ++ "-" ++ k2 ++ ":" ++ rel ++ (if far then ":far" else "") ++ (if both then ":both-ok" else ":vacuous")
+          -- "preserves ordering": instant1 ≤ instant2 ⇒ Timestamp1 ≤ Timestamp2 (and symmetrically)
+          let le12 := t1.secs < t2.secs || (t1.secs == t2.secs && t1.nanos ≤ t2.nanos)
+          let le21 := t2.secs < t1.secs || (t1.secs == t2.secs && t2.nanos ≤ t1.nanos)
+          let vOrd :=
+            if !both then (if ord == "-" then "holds" else "fails:order-of-nothing")
+            else if ord == "incoherent" then "fails:ord-incoherent"
+            else if le12 && ord == "gt" then "fails:order-not-preserved"
+            else if le21 && ord == "lt" then "fails:order-not-preserved"
+            else if ord == "lt" || ord == "eq" || ord == "gt" then "holds" else "fails:malformed"
+          let v := judgePair t1.secs t1.nanos t2.secs t2.nanos i1 i2
+          answer m (if v == "holds" || v == "dontcare" then (if vOrd == "holds" then v else vOrd) else v) label
         | _ => answer ((convert a).wire ++ " & " ++ (convert b).wire) "fails:malformed" "pair:malformed"
       | _, _ => badReq "source"
     | _, _ => badReq "instant"
+  | "tsleap", [kind, sS, extra, off] =>
+    -- a chrono reading inside a leap second: `timestamp()` is the second it hangs on; whether that instant counts
+    -- as second S or S+1 "since the epoch" the property does not say (dontcare), but it must not panic
+    match mkInstant sS extra with
+    | none => badReq "instant"
+    | some t =>
+      match mkSource kind t off with
+      | none => badReq "source"
+      | some src =>
+        let v := if impl == "panic" then "fails:panic" else "dontcare"
+        answer (modelObs src impl) v ("leap:" ++ kind ++ ":" ++ region t.secs)
   | _, _ => badReq "op"
 
-def ops : List String := ["tssys", "tsutc", "tsfix", "tspair"]
+def ops : List String := ["tssys", "tsutc", "tsfix", "tspair", "tsleap"]
 
 end RpmVerif.Driver.C20
